@@ -14,11 +14,12 @@ Definition rsync (ep : N) (m r : result) : Prop :=
   res_builtAt r <= res_builtAt m /\ res_builtAt m <= ep /\ (res_deps m = res_deps r \/ res_deps m = drop_single (res_deps r)).
 
 Section DB.
-Variable rules : key -> rule.
+Variable R : key -> N -> rule.
 Record DBI (s : istate) : Prop := {
   d_sync : forall k, is_in_progress s k = true \/ rsync (is_epoch s) (res_of s k) (dbrow s k);
   d_wf : forall k, res_computedAt (dbrow s k) <= res_builtAt (dbrow s k);
-  d_men : forall k d, In d (res_deps (dbrow s k)) -> In (d_key d) (requestable (rules k) ++ r_disc (rules k))
+  d_men : forall k d, In d (res_deps (dbrow s k)) ->
+            In (d_key d) (requestable (R k (res_sig (dbrow s k))) ++ r_disc (R k (res_sig (dbrow s k))))
 }.
 
 Lemma rsync_evres ep m m' r : rsync ep m r -> evres ep m m' -> rsync ep m' r.
@@ -58,24 +59,26 @@ Section Build.
 Variable rules : key -> rule.
 Variable F : key -> N -> list value -> list N -> N -> N.
 Variable rank : key -> nat.
+Variable R : key -> N -> rule.
 Variable ord : key -> list rkind.
 Variable syncp : key -> bool.
 Hypothesis Hrank : wf_rank rules rank.
 Hypothesis Hwfd : wf_disc rules.
+Hypothesis HRt : table_ok rules R.
 Hypothesis Hord : forall k, In RReq (ord k).
-Notation DBI := (DBI rules).
-Notation HInv := (HInv rules F).
+Notation DBI := (DBI R).
+Notation HInv := (HInv F R).
 
 Section OneBuild.
 Variable env : key -> N.
-Notation BInv := (BInv rules env F rank).
+Notation BInv := (BInv rules env F rank R).
 
 (* a finished task is retired: its result is written to the database *)
 Lemma DBI_step_fintask root x s : Inv rules ctx0 s -> BInv root x s -> is_usedb s = true -> DBI s -> DBI (step_fintask s).
 Proof.
-  intros HI HB Hu [D1 D2 D3]. pose proof (BInv_step_fintask rules env F rank root x s HI HB) as HB'.
+  intros HI HB Hu [D1 D2 D3]. pose proof (BInv_step_fintask rules env F rank R root x s HI HB) as HB'.
   destruct (is_fintasks s) as [|t rest] eqn:Hq; [unfold step_fintask; rewrite Hq; now constructor|].
-  destruct (step_fintask_eff rules env F rank root x s t rest HI HB Hq) as (ti & E).
+  destruct (step_fintask_eff rules env F rank R root x s t rest HI HB Hq) as (ti & E).
   unfold step_fintask in *. rewrite Hq in *. set (s' := finish_task (upd_fintasks s rest) t) in *.
   pose proof (finish_task_db s t rest ti (fe_g _ _ _ _ _ _ E) (fe_k _ _ _ _ _ _ E) Hu) as Hdb. cbn zeta in Hdb. fold s' in Hdb.
   assert (Hrow_t : dbrow s' t = res_of s' t) by (unfold dbrow; rewrite Hdb; apply get_update_same).
@@ -83,27 +86,27 @@ Proof.
   destruct HB' as (_ & HC' & _). destruct (fe_self _ _ _ _ _ _ E) as (F1 & F2 & F3 & F4 & F5).
   constructor.
   - intros k. destruct (N.eq_dec k t) as [->|Hne].
-    + right. rewrite Hrow_t. unfold rsync. repeat split; auto; try lia. apply (b_le _ _ _ HC' t).
+    + right. rewrite Hrow_t. unfold rsync. repeat split; auto; try lia. apply (b_le _ _ _ _ HC' t).
     + rewrite (Hrow_o k Hne), (fe_ep _ _ _ _ _ _ E), (fe_res _ _ _ _ _ _ E k Hne). unfold is_in_progress. rewrite (fe_kind _ _ _ _ _ _ E).
       apply N.eqb_neq in Hne. rewrite Hne. apply D1.
   - intros k. destruct (N.eq_dec k t) as [->|Hne]; [|rewrite (Hrow_o k Hne); apply D2].
-    rewrite Hrow_t. fold (cAt s' t) (bAt s' t). rewrite F3, <- (fe_ep _ _ _ _ _ _ E). apply (b_le _ _ _ HC' t).
+    rewrite Hrow_t. fold (cAt s' t) (bAt s' t). rewrite F3, <- (fe_ep _ _ _ _ _ _ E). apply (b_le _ _ _ _ HC' t).
   - intros k d. destruct (N.eq_dec k t) as [->|Hne]; [|rewrite (Hrow_o k Hne); apply D3].
     rewrite Hrow_t. intros Hd. assert (Hc : curk s' t) by (apply (fe_curk_t rules s s' t ti rest E)).
-    destruct (b_cstr _ _ _ HC' t Hc) as (_ & _ & S3). apply (S3 d Hd).
+    destruct (b_cstr _ _ _ _ HC' t Hc) as (S0 & _ & _ & S3). rewrite S0, (HRt t). apply (S3 d Hd).
 Qed.
 
 Lemma DBI_mstep root s s' : Inv rules ctx0 s -> BInv root None s -> is_usedb s = true -> DBI s -> mstep rules env F ord syncp s s' -> nf s' -> DBI s'.
 Proof.
   intros HI HB Hu HD Hs Hn. destruct (EV_mstep rules env F ord syncp s s' HI Hs) as [->|HE]; [now apply (DBI_step_fintask root None)|].
-  now apply (DBI_EV rules s s').
+  now apply (DBI_EV R s s').
 Qed.
 
 Lemma usedb_mstep root s s' : Inv rules ctx0 s -> BInv root None s -> mstep rules env F ord syncp s s' -> nf s' -> is_usedb s' = is_usedb s.
 Proof.
   intros HI HB Hs Hn. destruct (EV_mstep rules env F ord syncp s s' HI Hs) as [->|HE]; [|now destruct (HE Hn) as (_ & _ & Hu & _)].
   destruct (is_fintasks s) as [|t rest] eqn:Hq; [unfold step_fintask; now rewrite Hq|].
-  destruct (step_fintask_eff rules env F rank root None s t rest HI HB Hq) as (ti & E). apply (fe_udb _ _ _ _ _ _ E).
+  destruct (step_fintask_eff rules env F rank R root None s t rest HI HB Hq) as (ti & E). apply (fe_udb _ _ _ _ _ _ E).
 Qed.
 
 Lemma DBI_start s0 root : DBI s0 -> DBI (start_build (iemit (bump s0) (EBuildStart root)) root).
@@ -121,7 +124,7 @@ Qed.
 
 Lemma DBI_in_build s0 root s : HInv s0 -> is_usedb s0 = true -> DBI s0 -> in_build rules env F ord syncp s0 root s -> DBI s /\ is_usedb s = true.
 Proof.
-  intros Hh Hu HD [Q M]. pose proof (Inv_start rules s0 root Q) as HI0. pose proof (BInv_start rules F rank env s0 root Hh) as HB0.
+  intros Hh Hu HD [Q M]. pose proof (Inv_start rules s0 root Q) as HI0. pose proof (BInv_start rules F rank R env s0 root Hh) as HB0.
   pose proof (DBI_start s0 root HD) as HD0.
   assert (Hu0 : is_usedb (start_build (iemit (bump s0) (EBuildStart root)) root) = true) by (unfold start_build; autorewrite with iv; exact Hu).
   assert (Hall : BInv root None s /\ DBI s /\ is_usedb s = true).
@@ -129,7 +132,7 @@ Proof.
     destruct (IH HI0 HB0 HD0 Hu0) as (HB & HD' & Hu').
     pose proof (Inv_msteps rules env F ord syncp _ _ M HI0) as HI.
     pose proof (proj1 (Inv_mstep rules env F ord syncp _ _ Hs HI)) as Hn.
-    split; [now apply (BInv_mstep rules F rank ord syncp Hrank Hwfd Hord env root s' s'')|].
+    split; [now apply (BInv_mstep rules F rank R ord syncp Hrank Hwfd HRt Hord env root s' s'')|].
     split; [now apply (DBI_mstep root s' s'')|]. rewrite (usedb_mstep root s' s'' HI HB Hs Hn). exact Hu'. }
   tauto.
 Qed.
@@ -158,7 +161,7 @@ Qed.
 Theorem restart_HInv s : HInv s -> DBI s -> is_usedb s = true -> is_db_epoch s = is_epoch s ->
   HInv (irestart true s) /\ DBI (irestart true s) /\ is_usedb (irestart true s) = true /\ is_db_epoch (irestart true s) = is_epoch (irestart true s).
 Proof.
-  intros [Q H3 H4 H5 H6 H7] [D1 D2 D3] Hu Hde. pose proof Q as (Q1 & Q2 & Q3 & Q4 & Q5 & Q6 & Q7 & Q8 & Q9).
+  intros [Q H3 H4 H5 H7] [D1 D2 D3] Hu Hde. pose proof Q as (Q1 & Q2 & Q3 & Q4 & Q5 & Q6 & Q7 & Q8 & Q9).
   set (s' := irestart true s).
   assert (HR : forall k, rinfo_of s' k = new_rinfo (dbrow s k)) by reflexivity.
   assert (Hres : forall k, res_of s' k = dbrow s k) by reflexivity.
@@ -175,12 +178,13 @@ Proof.
     + intros k. reflexivity.
     + intros k. cbn. discriminate.
     + intros k. unfold cAt, bAt. rewrite Hres, He. destruct (Hsy k) as (_ & _ & _ & A4 & A5 & _). split; [apply D2|lia].
-    + intros k. unfold bAt. rewrite Hres. intros Hb. destruct (Hsy k) as (_ & A2 & _ & A4 & _). rewrite A2. apply H6. unfold bAt. lia.
-    + intros k. unfold bAt. rewrite Hres. intros Hb. destruct (Hsy k) as (_ & _ & _ & A4 & _).
+    + intros k. unfold bAt. rewrite Hres. intros Hb. destruct (Hsy k) as (_ & A2 & _ & A4 & _).
       assert (Hb0 : bAt s k <> 0) by (unfold bAt; lia).
-      destruct (H7 k Hb0) as (v & Hv & Ho & Hm & Hc). exists v. split; [now rewrite Hst|]. split; [exact Ho|]. split.
-      * unfold deps. rewrite Hres. apply D3.
-      * intros Hf. apply (concl_same_gen rules F s s' k v); [intros x Hx; split; [now apply Hdin|apply Hst]|].
+      assert (Hsg : res_sig (res_of s' k) = res_sig (res_of s k)) by (rewrite Hres; exact A2).
+      assert (Erl : rule_of R s' k = rule_of R s k) by (unfold rule_of; now rewrite Hsg).
+      destruct (H7 k Hb0) as (v & Hv & Ho & Hm & Hc). exists v. split; [now rewrite Hst|]. split; [rewrite Erl; exact Ho|]. split.
+      * unfold deps, rule_of. rewrite Hres. apply D3.
+      * intros Hf. apply (concl_same_gen F R s s' k v Hsg); [intros x Hx; split; [now apply Hdin|apply Hst]|].
         apply Hc. intros d Hd Hor Hsi. rewrite <- Hca. transitivity (bAt s' k); [apply Hf; auto|]. unfold bAt. rewrite Hres. exact A4.
   - constructor.
     + intros k. right. rewrite He, Hres. change (dbrow s' k) with (dbrow s k). destruct (Hsy k) as (_ & _ & _ & A4 & A5 & _). unfold rsync. repeat split; auto; lia.
@@ -198,7 +202,6 @@ Proof.
   - intros k. reflexivity.
   - intros k. cbn. discriminate.
   - intros k. cbn. split; lia.
-  - intros k Hb. now contradiction Hb.
   - intros k Hb. now contradiction Hb.
 Qed.
 
@@ -232,7 +235,6 @@ Proof.
     + intros k. cbn. discriminate.
     + intros k. cbn. split; lia.
     + intros k Hb. now contradiction Hb.
-    + intros k Hb. now contradiction Hb.
   - constructor.
     + intros k. right. cbn. unfold rsync. cbn. repeat split; auto; lia.
     + intros k. cbn. lia.
@@ -245,7 +247,7 @@ Theorem build_DInv env fuel pfuel cfuel s0 root sched sf m : DInv s0 ->
   ((rank root < cfuel)%nat -> res_value (res_of sf root) = cv rules env F cfuel root) /\ DInv sf.
 Proof.
   intros (Hh & HD & Hu & Hde) Hb Hf.
-  destruct (build_values_clean rules F rank ord syncp Hrank Hwfd Hord env fuel pfuel cfuel s0 root sched sf m Hh Hb Hf) as [Hv Hh'].
+  destruct (build_values_clean rules F rank R ord syncp Hrank Hwfd HRt Hord env fuel pfuel cfuel s0 root sched sf m Hh Hb Hf) as [Hv Hh'].
   destruct (build_DBI env fuel pfuel s0 root sched sf m Hh Hu HD Hb Hf) as (HD' & Hu' & Hde'). split; [exact Hv|]. exact (conj Hh' (conj HD' (conj Hu' Hde'))).
 Qed.
 Theorem restart_DInv s : DInv s -> DInv (irestart true s).
@@ -262,7 +264,7 @@ Proof.
       destruct r as [s'| | |]; try discriminate. destruct (is_fault s') eqn:Hf; [discriminate|].
       destruct (run_hops s' ops) as [[sf' vs']|] eqn:Hrest; [|discriminate]. inversion Hrun. subst sf vs.
       destruct HJ as (Hh & HD & Hu & Hde).
-      destruct (build_values_clean rules F rank ord syncp Hrank Hwfd Hord (bs_env b) (bs_fuel b) (bs_pfuel b) cfuel s (bs_root b) (bs_sched b) s' m Hh Hb Hf) as [Hv Hh'].
+      destruct (build_values_clean rules F rank R ord syncp Hrank Hwfd HRt Hord (bs_env b) (bs_fuel b) (bs_pfuel b) cfuel s (bs_root b) (bs_sched b) s' m Hh Hb Hf) as [Hv Hh'].
       destruct (build_DBI (bs_env b) (bs_fuel b) (bs_pfuel b) s (bs_root b) (bs_sched b) s' m Hh Hu HD Hb Hf) as (HD' & Hu' & Hde').
       destruct (IH s' sf' vs' (conj Hh' (conj HD' (conj Hu' Hde'))) Hrest) as [Hvs HJf]; [intros b' Hb'; apply Hrk; cbn [hop_roots flat_map]; apply in_or_app; now right|].
       split; auto. cbn [hop_roots flat_map app map]. rewrite Hv by (apply Hrk; cbn [hop_roots flat_map]; apply in_or_app; left; now left). now rewrite Hvs.
